@@ -21,6 +21,9 @@ import PandoraModel.Properties.C13RunFlip
 import PandoraModel.Properties.C13CbcaClip
 import PandoraModel.Properties.C13CbcaStep
 import PandoraModel.Properties.C13PipelineCbca
+import PandoraModel.Properties.C13CbcaFlip
+import PandoraModel.Properties.C13RunCbca
+import PandoraModel.Properties.C13RunCbcaFlip
 open Pandora.C13
 #print axioms Local.comp
 #print axioms Local.pair
@@ -142,11 +145,8 @@ open Pandora.C13
 #print axioms pipeConeOf_documented
 #print axioms gridImg_tabulate
 #print axioms costStage_run
-#print axioms wtaStage_run
 #print axioms flags_run
-#print axioms afterRefine_is_refineStage
 #print axioms afterFilter_is_filterStage
-#print axioms afterFilter_swap_is_rightDisp
 #print axioms leftDataset_rect
 #print axioms fullRun_is_ccStage
 #print axioms leftRun_is_filterStage
@@ -235,3 +235,39 @@ open Pandora.C13
 #print axioms filter_cbca_flags_crop_eq_whole
 #print axioms cbcaCostCone_le_costCone
 #print axioms cbcaPipeCone_documented
+#print axioms mcStage_run
+#print axioms wtaStage_runR
+#print axioms afterRefineR_is_refineStage
+#print axioms afterFilterR_is_filterStage
+#print axioms afterFilterR_swap_is_rightDisp
+#print axioms fullRunR_is_ccStage
+#print axioms runR_crop_eq_whole
+#print axioms runR_flip
+#print axioms cbca_nanmedian_perm
+#print axioms median3_flip
+#print axioms filteredL_flip
+#print axioms filteredR_flip
+#print axioms crossSupport_flip
+#print axioms crossL_flip
+#print axioms crossR_flip
+#print axioms sumRange_reverse
+#print axioms sumRangeN_reverse
+#print axioms region_flip
+#print axioms specAgg_flip
+#print axioms nanOutside_flip
+#print axioms aggregate_flip
+#print axioms cbcaAt_negView
+#print axioms cbcaStep_vflip
+#print axioms aggregate_flip_run
+#print axioms pipeline_flip_cbca
+#print axioms filter_flip_cbca
+#print axioms pipeline_flip_flags_cbca
+#print axioms pipeline_flip_flags_both_cbca
+#print axioms filter_flip_flags_cbca
+#print axioms cbcaStep_strip
+#print axioms disp_in_interval
+#print axioms costRows_cbca
+#print axioms rightCol_isSome_of_rightInside
+#print axioms nanOutsideOK_of_mc
+#print axioms runCbca_crop_eq_whole
+#print axioms runCbca_flip
